@@ -296,9 +296,13 @@ class Circuit:
                 path = [m[1]] + [int(v) for v in re.split(r'[_\[\]]+', m[2]) if len(v) > 0]
                 d = d_top
                 for j in path[:-1]:
-                    d[j] = d.get(j, dict())
+                    if not isinstance(d.get(j), dict):  # a name that is also the stem of longer names sorts first
+                        d[j] = {-1: d[j]} if j in d else dict()
                     d = d[j]
-                d[path[-1]] = i
+                if isinstance(d.get(path[-1]), dict):
+                    d[path[-1]][-1] = i
+                else:
+                    d[path[-1]] = i
 
         # sort recursively for multi-dimensional lists.
         def sorted_values(d): return [sorted_values(v) for k, v in sorted(d.items())] if isinstance(d, dict) else d
